@@ -204,6 +204,11 @@ Lemma realize_fail c : realize_global_int (Z.lor (b2z (c <=? 0)) gen_check_fail_
 Proof. unfold realize_global_int. destruct (c <=? 0); reflexivity. Qed.
 
 (* ---- the statements used by Props.v *)
+Lemma in_domain_spec e : gen_check_in_domain e = true <-> - 2 ^ 64 < e < 2 ^ 64.
+Proof.
+  unfold gen_check_in_domain. change (Z.shiftl 1 64) with (2 ^ 64). pows.
+  rewrite andb_true_iff, !Z.ltb_lt. tauto.
+Qed.
 
 Theorem const_check_iff : forall T c e,
   promoted T -> in_range T c -> - 2 ^ 64 < e < 2 ^ 64 ->
@@ -211,6 +216,7 @@ Theorem const_check_iff : forall T c e,
 Proof.
   intros T c e P R E. unfold lib_constant, check_value_of.
   change gen_macro_checked with true. cbv iota.
+  rewrite (proj2 (in_domain_spec e) E). cbn [negb].
   rewrite (getter_checked T c e P R E).
   pose proof (in_range_promoted T c P R) as C.
   destruct (c =? e).
@@ -238,26 +244,14 @@ Proof.
   reflexivity.
 Qed.
 
-(* outside (-2^64, 2^64) the literal is not C: the model declines to predict *)
+(* outside (-2^64, 2^64) the value is not a C literal: the recompiler refuses to generate the
+   module (VerificationError), so such a declaration is never silently accepted *)
 Theorem const_literal_outside_C : forall T c e, e <= - 2 ^ 64 \/ 2 ^ 64 <= e ->
-  promoted T -> in_range T c -> lib_constant KMacro T c (Some e) = None.
+  lib_constant KMacro T c (Some e) = Some (Err BuildError).
 Proof.
-  intros T c e E P R. unfold lib_constant, check_value_of.
-  change gen_macro_checked with true. cbv iota. unfold const_getter.
-  rewrite (eval_gen_n T c P R). destruct (eval_gen_o T c P R) as [t ->].
-  assert (H : ceval (rho_X T c) (check_literal e) = None).
-  { unfold check_literal, gen_check_suffixU. destruct E as [E | E].
-    - assert (H1 : (e <? 0) = true) by (pows; lia). rewrite H1.
-      assert (H2 : (e >? 0) = false) by (pows; lia). rewrite H2.
-      cbn [ceval]. unfold lit_type.
-      assert (H3 : (- e <? 0) = false) by (pows; lia). rewrite H3.
-      assert (H4 : (- e <? 2 ^ 31) = false) by (pows; lia). rewrite H4.
-      assert (H5 : (- e <? 2 ^ 63) = false) by (pows; lia). rewrite H5.
-      assert (H6 : (- e <? 2 ^ 64) = false) by (pows; lia). rewrite H6. reflexivity.
-    - assert (H1 : (e <? 0) = false) by (pows; lia). rewrite H1.
-      assert (H2 : (e >? 0) = true) by (pows; lia). rewrite H2.
-      cbn [ceval]. unfold lit_type. rewrite H1.
-      assert (H4 : (e <? 2 ^ 32) = false) by (pows; lia). rewrite H4.
-      assert (H6 : (e <? 2 ^ 64) = false) by (pows; lia). rewrite H6. reflexivity. }
-  rewrite H. reflexivity.
+  intros T c e E. unfold lib_constant, check_value_of.
+  change gen_macro_checked with true. cbv iota.
+  assert (D : gen_check_in_domain e = false).
+  { destruct (gen_check_in_domain e) eqn:G; [|reflexivity]. apply in_domain_spec in G. lia. }
+  rewrite D. reflexivity.
 Qed.
